@@ -43,7 +43,13 @@ pub struct Var {
     pub kind:  Kind,
     pub read:  bool,
     pub write: bool,
+    /// where a stored value comes from: 0 = call data, otherwise an environment word (see `VALUE_SOURCES`)
+    #[serde(default)]
+    pub src:   u8,
 }
+
+/// CALLVALUE, ORIGIN, GASPRICE, TIMESTAMP, NUMBER, CHAINID, SELFBALANCE, GAS, ADDRESS, COINBASE, RETURNDATASIZE
+pub const VALUE_SOURCES: [u8; 11] = [0x34, 0x32, 0x3a, 0x42, 0x43, 0x46, 0x47, 0x5a, 0x30, 0x41, 0x3d];
 
 #[derive(Clone, Debug, PartialEq, Eq, Serialize, Deserialize)]
 pub struct Truth {
@@ -175,7 +181,8 @@ pub fn gen_truth(ch: &mut Chooser, max_vars: usize) -> Truth {
             1 => (false, true),
             _ => (true, true),
         };
-        vars.push(Var { slot, kind, read, write });
+        let src = if ch.chance(1, 4) { 1 + ch.below(VALUE_SOURCES.len()) as u8 } else { 0 };
+        vars.push(Var { slot, kind, read, write, src });
     }
     Truth {
         vars,
@@ -188,6 +195,19 @@ pub fn gen_truth(ch: &mut Chooser, max_vars: usize) -> Truth {
 // ------------------------------------------------------------------------------------------------
 
 /// push calldata word number `n` (after the selector), optionally masked to 160 bits
+/// a stored value: call-data word `n`, or the variable's environment word
+fn value(b: &mut B, v: &Var, n: usize, addr: bool) {
+    if v.src == 0 {
+        arg(b, n, addr);
+    } else {
+        b.emit(VALUE_SOURCES[(v.src as usize - 1) % VALUE_SOURCES.len()]);
+        if addr {
+            b.push(mask(160));
+            b.emit(asm::AND);
+        }
+    }
+}
+
 fn arg(b: &mut B, n: usize, addr: bool) {
     b.push(W::from_u64(4 + 32 * n as u64));
     b.emit(asm::CALLDATALOAD);
@@ -298,25 +318,25 @@ fn emit_read(b: &mut B, v: &Var, field: usize) {
 fn emit_write(b: &mut B, v: &Var, field: usize) {
     match &v.kind {
         Kind::Plain => {
-            arg(b, 0, false);
+            value(b, v, 0, false);
             b.push(v.slot);
             b.emit(asm::SSTORE);
             b.emit(asm::STOP);
         }
         Kind::Addr => {
-            arg(b, 0, true);
+            value(b, v, 0, true);
             b.push(v.slot);
             b.emit(asm::SSTORE);
             b.emit(asm::STOP);
         }
         Kind::Mapping { keys, value_addr, const_key } => {
-            arg(b, keys.len(), *value_addr);
+            value(b, v, keys.len(), *value_addr);
             mapping_location(b, v.slot, keys, const_key);
             b.emit(asm::SSTORE);
             b.emit(asm::STOP);
         }
         Kind::DynArray { prefolded } => {
-            arg(b, 1, false);
+            value(b, v, 1, false);
             array_location(b, v.slot, *prefolded);
             b.emit(asm::SSTORE);
             b.emit(asm::STOP);
@@ -324,7 +344,7 @@ fn emit_write(b: &mut B, v: &Var, field: usize) {
         Kind::Packed { fields, whole, .. } if *whole != 0 => {
             // f0 | f1 * 2^o1 | ...: every field from its own argument
             for (i, (o, w)) in fields.iter().enumerate() {
-                arg(b, i, false);
+                value(b, v, i, false);
                 b.push(mask(*w));
                 b.emit(asm::AND);
                 if *o > 0 {
@@ -346,7 +366,7 @@ fn emit_write(b: &mut B, v: &Var, field: usize) {
         Kind::Packed { fields, use_shifts, .. } => {
             let (o, w) = fields[field % fields.len()];
             // (value & mask) * 2^o
-            arg(b, 0, false);
+            value(b, v, 0, false);
             b.push(mask(w));
             b.emit(asm::AND);
             // writes use the power-of-two multiply the lifting passes document (`mul_shifted`);
